@@ -184,6 +184,12 @@ class AxiSystem:
         return None
 
     def step(self, ch):
+        try:
+            self._step(ch)
+        except rt.SimError as e:  # hard run-time error in the design (index/range violation ...)
+            raise Violation("simerror", "", f"simulation error in the emitted design: {e}")
+
+    def _step(self, ch):
         aw, w, ar, bready, rready, h = ch
         if w is not None:
             w = tuple(w)
@@ -411,6 +417,9 @@ def quick_variants():
         # L4 MemWord 0x0, hole 0x4, RegFile@0x8 {MemWord 0x8, read-only Word 0xC driven by hardware}
         V("nested/q1", "nested", [0x8, 0xC], [(A, F), (B, L)], 1),
         V("nested/q2", "nested", [0x0, 0x8, 0x4], [(A, F), (B, M)], 1, HW_Y_FIXED),
+        # L5 three-word AddrRange window at 0x0 (range-compare decode) directly followed by MemWord 0xC
+        V("range/q1", "range", [0x0, 0x8, 0xC], [(A, F), (B, L)], 1),
+        V("range/q2", "range", [0x8, 0xC], [(A, F), (B, M)], 1),
     ]
 
 
@@ -421,6 +430,7 @@ def seed_pool():
         V("fields/s1", "fields", [0x0, 0xC], [(A, F), (B, F)], 1, HW_IN_ONLY),
         V("array/s1", "array", [0x0, 0xC], [(A, F), (B, Z)], 1),
         V("nested/s1", "nested", [0x0, 0xC], [(A, F), (B, M)], 1),
+        V("range/s1", "range", [0x4, 0xC], [(B, F), (A, Z)], 1),
     ]
 
 
@@ -445,6 +455,12 @@ def thorough_variants():
         V("memword/t5", "memword", [0x0], ALL8, 2, max_states=big),
         V("fields/t5", "fields", [0x0, 0x8], [(A, F), (B, F)], 2, HW_FIXED, max_states=big),
         V("fields/t6", "fields", [0x0, 0x8, 0x4], [(A, F), (B, L), (A, M), (B, Z)], 1, max_states=big),
+        V("range/t1", "range", [0x8, 0xC], [(A, F), (B, M)], 2, max_states=big),
+        V("range/t2", "range", [0x0, 0x4, 0x8, 0xC], [(A, F), (B, L), (B, M)], 1, max_states=big),
+        # L6 MemWord 0x0, two-word Memory at 0x4 (offset not a multiple of its size), MemWord 0xC
+        V("memory/t1", "memory", [0x8, 0xC], [(A, F), (B, M)], 2, max_states=big),
+        V("memory/t2", "memory", [0x4, 0xC], [(A, F), (B, L)], 1, max_states=big),
+        V("memory/t3", "memory", [0x0, 0x4], [(A, F), (B, M)], 1, max_states=big),
     ]
 
 
